@@ -49,7 +49,7 @@ LEAVES = [
     ('add', 'Quadratic', 'f64', 'Quadratic', 'free'), ('add', 'Quadratic', 'Linear', 'Quadratic', 'deleg'), ('add', 'Quadratic', 'Quadratic', 'Quadratic', 'merge2'),
     ('add', 'Polynomial', 'f64', 'Polynomial', 'map'), ('add', 'Polynomial', 'Linear', 'Polynomial', 'map'), ('add', 'Polynomial', 'Quadratic', 'Polynomial', 'map'),
     ('add', 'Polynomial', 'Polynomial', 'Polynomial', 'map'),
-    ('mul', 'Linear', 'f64', 'Linear', 'free'), ('mul', 'Linear', 'Linear', 'Quadratic', 'map'),
+    ('mul', 'Linear', 'f64', 'Linear', 'free'), ('mul', 'Linear', 'Linear', 'Quadratic', 'mulll'),
     ('mul', 'Quadratic', 'f64', 'Quadratic', 'free'), ('mul', 'Quadratic', 'Linear', 'Polynomial', 'map'), ('mul', 'Quadratic', 'Quadratic', 'Polynomial', 'map'),
     ('mul', 'Polynomial', 'f64', 'Polynomial', 'free'), ('mul', 'Polynomial', 'Linear', 'Polynomial', 'map'), ('mul', 'Polynomial', 'Quadratic', 'Polynomial', 'map'),
     ('mul', 'Polynomial', 'Polynomial', 'Polynomial', 'map'),
@@ -79,13 +79,19 @@ def spec_impl(op, a, b, c, req='true'):
 def leaf_spec_text():
     out = ['// ---- leaf remainders: 0 for map-free code, uninterpreted for the assumed BTreeMap-merge leaves ----\n']
     for op, a, b, c, kind in LEAVES:
-        sig = 'pub %s spec fn %s(x: v1::%s, y: %s, m: Map<u64, F64>) -> real' % ('open' if kind in ('free', 'merge', 'deleg', 'merge2') else 'uninterp', rem_name(op, a, b), a, 'F64' if b == 'f64' else 'v1::' + b)
+        sig = 'pub %s spec fn %s(x: v1::%s, y: %s, m: Map<u64, F64>) -> real' % ('open' if kind in ('free', 'merge', 'deleg', 'merge2', 'mulll') else 'uninterp', rem_name(op, a, b), a, 'F64' if b == 'f64' else 'v1::' + b)
         if kind == 'merge2':
             assert (op, a, b) == ('add', 'Quadratic', 'Quadratic')
             out.append('pub open spec fn rem_add_quadratic_quadratic(x: v1::Quadratic, y: v1::Quadratic, m: Map<u64, F64>) -> real {\n'
                        '    quad_sum(x.rows@, x.columns@, x.values@, quad_n(x), m) + quad_sum(y.rows@, y.columns@, y.values@, quad_n(y), m)\n'
                        '        - ksum(kacc(quad_items(y), quad_n(y), true, kins(quad_items(x), quad_n(x))), qw2(m))\n'
                        '        + (match (x.linear, y.linear) { (Some(l), Some(r)) => rem_add_linear_linear(l, r, m), _ => 0real })\n}\n')
+            continue
+        if kind == 'mulll':
+            # verified leaf: the quadratic part of Linear * Linear is exact; the linear part is (x * r) + (c * y) - r * c, whose only inexact step is that one Linear + Linear
+            assert (op, a, b) == ('mul', 'Linear', 'Linear')
+            out.append('pub open spec fn rem_mul_linear_linear(x: v1::Linear, y: v1::Linear, m: Map<u64, F64>) -> real {\n'
+                       '    let p = lmul_parts(x, y); rem_add_linear_linear(p.0, p.1, m)\n}\n')
             continue
         if kind == 'deleg':
             # verified leaf that delegates to Linear + Linear on the linear part
@@ -147,7 +153,7 @@ def linear_add_f64():
 def linear_mul_f64():
     return Unit('Mul<f64> for Linear', 'linear.rs', 'mul', impl=r'impl Mul<f64> for Linear \{', sig='fn mul(mut self, rhs: f64) -> Self', anyhow=False, mut_self=True,
                 pre=spec_impl('mul', 'Linear', 'f64', 'Linear'), wrap=('impl core::ops::Mul<F64> for Linear { type Output = Linear;', '}'),
-                header='fn mul(self, rhs: F64) -> (r: Linear)\n        ensures ' + contract('mul', 'Linear', 'f64', 'Linear'),
+                header='fn mul(self, rhs: F64) -> (r: Linear)\n        ensures ' + contract('mul', 'Linear', 'f64', 'Linear') + '\n            linear_fin(self) && fin(rhs) ==> lin_scaled(r, self, rhs),',
                 loops=[dict(kind='for', mut_index=True, inv='''invariant
                 0 <= __i1 <= this.terms.len(), this.terms.len() == self.terms.len(), this.constant == self.constant,
                 forall|j: int| 0 <= j < __i1 ==> (#[trigger] this.terms[j]).id == self.terms[j].id && (fin(self.terms[j].coefficient) && fin(rhs) ==> this.terms[j].coefficient@ == XR::Fin(rv(self.terms[j].coefficient) * rv(rhs))),
@@ -561,8 +567,96 @@ def typed_macro_units():
             if b != ty or a != 'f64':
                 continue
             U.append(unit(file, 'impl_mul_inverse', args, ln, 'mul', 'impl core::ops::Mul<%s> for %s { type Output = %s;' % (T[b]['rust'], T[a]['rust'], T[b]['rust']), si('Mul', 'mul', a, b, b),
-                          'fn mul(self, rhs: %s) -> (r: %s)\n        ensures %s' % (T[b]['rust'], T[b]['rust'], contract('mul', b, a, b, lhs='rhs', rhs='self'))))
+                          'fn mul(self, rhs: %s) -> (r: %s)\n        ensures %s' % (T[b]['rust'], T[b]['rust'], contract('mul', b, a, b, lhs='rhs', rhs='self'))
+                          + ('\n            linear_fin(rhs) && fin(self) ==> lin_scaled(r, rhs, self),' if b == 'Linear' else '')))
+    # a - b is computed as a + (-b); decided here for b = f64 (negation of a float is exact, Linear + f64 has no remainder)
+    for args, ln in core.macro_invocations('linear.rs', 'impl_sub_by_neg_add'):
+        a, b = args
+        if (a, b) != ('Linear', 'f64'):
+            continue
+        U.append(unit('linear.rs', 'impl_sub_by_neg_add', args, ln, 'sub', 'impl core::ops::Sub<F64> for Linear { type Output = Linear;',
+                      'impl SubSpecImpl<F64> for Linear { open spec fn obeys_sub_spec() -> bool { false } open spec fn sub_req(self, rhs: F64) -> bool { true } open spec fn sub_spec(self, rhs: F64) -> Linear { arbitrary() } }\n',
+                      '''fn sub(self, rhs: F64) -> (r: Linear)
+        ensures linear_fin(self) && fin(rhs) ==> linear_fin(r) && forall|m: Map<u64, F64>| #![trigger linear_val(r, m)] linear_val(r, m) == linear_val(self, m) - rv(rhs),
+            linear_ids(r).subset_of(linear_ids(self)),'''))
     return U
+
+
+# ---------------------------------------------------------------- Linear * Linear: nested accumulation loop (entry API), FromIterator for Quadratic, linear part by the typed operators
+def linear_mul_linear():
+    FIN = 'linear_fin(self) && linear_fin(rhs)'
+    final_proof = '''proof {
+            assert(linear_ids(__lin).subset_of(linear_ids(self).union(linear_ids(rhs))));
+            assert forall|k: u64| quad_ids(quad.rows@, quad.columns@, quad_n(quad)).contains(k) implies linear_ids(self).union(linear_ids(rhs)).contains(k) by {
+                lemma_quad_ids_mem(quad.rows@, quad.columns@, quad_n(quad), k);
+                let j = choose|j: int| 0 <= j < quad_n(quad) && #[trigger] pos_has(quad.rows@, quad.columns@, j, k);
+                let i = choose|i: int| 0 <= i < lst.len() && canon2((#[trigger] lst[i]).0) == (quad.rows[j], quad.columns[j]);
+                assert(tm.contains_key(lst[i].0));
+            }
+            if %s {
+                assert(gm.dom() =~= tm.dom());
+                assert(klists(lst, lst.len() as int, gm));
+                assert(kfin(lst));
+                assert forall|m: Map<u64, F64>| #![trigger quadratic_val(quad, m)] quadratic_val(quad, m) == linear_val(self, m) * linear_val(rhs, m) - rem_mul_linear_linear(self, rhs, m) by {
+                    lemma_klist_sum(lst, lst.len() as int, gm, qw2(m));
+                    lemma_lmul_rem(self, rhs, __l1, __l2, m);
+                    lemma_lmul_total(lin_all(self.terms@, m), lin_all(rhs.terms@, m), rv(self.constant), rv(rhs.constant));
+                    assert(linear_val(__l1, m) == linear_val(self, m) * rv(rhs.constant));
+                    assert(linear_val(__l2, m) == linear_val(rhs, m) * rv(self.constant));
+                    assert(linear_val(__lin, m) == linear_val(__s, m) - rv(rhs.constant) * rv(self.constant));
+                }
+                assert forall|m: Map<u64, F64>| #![trigger quadratic_val(quad, m)] quadratic_val(quad, m) == linear_val(rhs, m) * linear_val(self, m) - rem_mul_linear_linear(self, rhs, m) by {
+                    assert(linear_val(self, m) * linear_val(rhs, m) == linear_val(rhs, m) * linear_val(self, m)) by(nonlinear_arith); }
+            }
+        }
+        ''' % FIN
+    return Unit('Mul for Linear', 'linear.rs', 'mul', impl=r'impl Mul for Linear \{', sig='fn mul(self, rhs: Self) -> Quadratic', anyhow=False,
+                pre=spec_impl('mul', 'Linear', 'Linear', 'Quadratic'), wrap=('impl core::ops::Mul for Linear { type Output = Quadratic;', '}'),
+                header='''#[verifier::loop_isolation(false)]
+fn mul(self, rhs: Self) -> (r: Quadratic)
+        // the quadratic part is EXACTLY the product of the two term lists (accumulated under canonical positions, nothing dropped); the linear part is
+        // self * r + c * rhs - r * c, whose only inexact step is that one Linear + Linear: the remainder is DEFINED as the remainder of that addition
+        ensures ''' + contract('mul', 'Linear', 'Linear', 'Quadratic'),
+                rsubs=[(r'let mut terms = BTreeMap::new\(\);', 'let mut terms: BTreeMap<(u64, u64), F64> = BTreeMap::new();', 1),
+                       # R20c: the product is bound by a `let` in front of the statement that uses it
+                       (r'\*terms\.entry\(\(row, col\)\)\.or_default\(\) \+= a\.coefficient \* b\.coefficient;',
+                        'let __p = a.coefficient * b.coefficient; *terms.entry((row, col)).or_default() += __p;', 1),
+                       (r'let mut quad: Quadratic = terms\.into_iter\(\)\.collect\(\);', 'let __l = btree_into_vec2(terms); let ghost lst = __l@; let mut quad: Quadratic = Quadratic::from_iter(__l);', 1),
+                       # R20c: the operands of the operator chain are bound by `let`s in evaluation order (left to right)
+                       (r'quad\.linear = Some\(self \* r \+ c \* rhs - r \* c\);',
+                        'let __l1 = self * r; let __l2 = c * rhs; let __s = __l1 + __l2; let __lin = __s - r * c; quad.linear = Some(__lin);', 1)],
+                loops=[dict(kind='for', it='it_1', inv='''invariant
+                forall|k: (u64, u64)| #[trigger] terms@.contains_key(k) ==> ids.contains(k.0) && ids.contains(k.1),
+                %s ==> kmatches(terms@, gm) && forall|x: Map<u64, F64>| #![trigger ksum(gm, qw2(x))] ksum(gm, qw2(x)) == lin_sum(self.terms@, it_1.index@ as int, x) * lin_all(rhs.terms@, x),''' % FIN),
+                       dict(kind='for', it='it_2', inv='''invariant
+                *a == self.terms[it_1.index@ as int], 0 <= it_1.index@ < self.terms.len(),
+                forall|k: (u64, u64)| #[trigger] terms@.contains_key(k) ==> ids.contains(k.0) && ids.contains(k.1),
+                %s ==> kmatches(terms@, gm) && forall|x: Map<u64, F64>| #![trigger ksum(gm, qw2(x))] ksum(gm, qw2(x)) ==
+                    lin_sum(self.terms@, it_1.index@ as int, x) * lin_all(rhs.terms@, x) + (rv(a.coefficient) * sval(x, a.id)) * lin_sum(rhs.terms@, it_2.index@ as int, x),''' % FIN)],
+                proofs=[(('after', r'let mut terms: BTreeMap<\(u64, u64\), F64> = BTreeMap::new\(\);'), '''
+        let ghost ids = linear_ids(self).union(linear_ids(rhs));
+        let ghost mut gm: Map<(u64, u64), real> = Map::empty();
+        proof { assert forall|x: Map<u64, F64>| #![trigger ksum(gm, qw2(x))] ksum(gm, qw2(x)) == 0real * lin_all(rhs.terms@, x) by { lemma_ksum_empty::<(u64, u64)>(qw2(x)); assert(0real * lin_all(rhs.terms@, x) == 0real) by(nonlinear_arith); } }'''),
+                        (('after', r'\+= __p;'), '''
+                proof {
+                    lemma_lin_ids_has(self.terms@, self.terms.len() as int, it_1.index@ as int); lemma_lin_ids_has(rhs.terms@, rhs.terms.len() as int, it_2.index@ as int);
+                    if %s {
+                        let key = (row, col); let c = rv(a.coefficient) * rv(b.coefficient); let gm0 = gm;
+                        gm = gm.insert(key, (if gm.contains_key(key) { gm[key] } else { 0real }) + c);
+                        assert forall|x: Map<u64, F64>| #![trigger ksum(gm, qw2(x))] ksum(gm, qw2(x)) ==
+                            lin_sum(self.terms@, it_1.index@ as int, x) * lin_all(rhs.terms@, x) + (rv(a.coefficient) * sval(x, a.id)) * lin_sum(rhs.terms@, it_2.index@ as int + 1, x) by {
+                            lemma_ksum_bump(gm0, qw2(x), key, c);
+                            lemma_prod_step(lin_sum(self.terms@, it_1.index@ as int, x) * lin_all(rhs.terms@, x), rv(a.coefficient), sval(x, a.id), lin_sum(rhs.terms@, it_2.index@ as int, x), rv(b.coefficient), sval(x, b.id));
+                        }
+                    }
+                }''' % FIN),
+                        (('before', r'\}\s*let __l = btree_into_vec2'), '''proof { if %s {
+                assert forall|x: Map<u64, F64>| #![trigger ksum(gm, qw2(x))] ksum(gm, qw2(x)) == lin_sum(self.terms@, it_1.index@ as int + 1, x) * lin_all(rhs.terms@, x) by {
+                    lemma_prod_row(lin_sum(self.terms@, it_1.index@ as int, x), rv(a.coefficient) * sval(x, a.id), lin_all(rhs.terms@, x)); } } }
+        ''' % FIN),
+                        (('before', r'let __l = btree_into_vec2\(terms\);'), 'let ghost tm = terms@;\n        '),
+                        (('before', r'quad\s*\}\s*$'), final_proof)])
+
 
 
 # ---------------------------------------------------------------- Quadratic: quad_iter, FromIterator, Add (entry API over (u64, u64) keys)
